@@ -29,7 +29,7 @@ from pathlib import Path
 ROOT = Path(__file__).resolve().parent.parent
 REPO = Path(os.environ.get("JSVERIF_REPO", "/repo")).resolve()
 EVIDENCE_DIR = Path(os.environ.get("JSVERIF_EVIDENCE_DIR", ROOT / "evidence"))
-REPLAY_DIR = ROOT / "replays"
+REPLAY_DIR = Path(os.environ.get("JSVERIF_REPLAY_DIR", ROOT / "replays"))
 KNOWN_FILE = ROOT / "known_findings.json"
 
 EXIT_HELD, EXIT_VIOLATION, EXIT_INCONCLUSIVE = 0, 1, 2
@@ -312,7 +312,7 @@ def merge_and_report(mod, tier, seed, partials, wall_s, replaying=False):
             name = f"{v['kind']}-{stable_hash(v)}.json"
             path = d / name
             path.write_text(json.dumps(v, indent=1, default=str))
-            replay_paths.append(str(path.relative_to(ROOT)))
+            replay_paths.append(str(path.relative_to(ROOT)) if ROOT in path.parents else str(path))
 
     try:
         tree = repo_tree_info()
